@@ -712,6 +712,17 @@ _process_request_(struct qb_ipcs_connection *c, int32_t ms_timeout)
 			    c->description);
 		res = -ESHUTDOWN;
 		goto cleanup;
+	} else if (size < (ssize_t)sizeof(struct qb_ipc_request_header) ||
+		   hdr->size < 0 || hdr->size > size ||
+		   (size_t)hdr->size > c->request.max_msg_size) {
+		/*
+		 * Never hand the callback a length the sender made up: it must
+		 * exceed neither what was received nor the negotiated maximum.
+		 */
+		qb_util_log(LOG_ERR, "malformed request of %zd bytes (%s)",
+			    size, c->description);
+		res = -EBADMSG;
+		goto cleanup;
 	} else {
 		c->stats.requests++;
 		res = c->service->serv_fns.msg_process(c, hdr, hdr->size);
